@@ -22,7 +22,8 @@ PageOf(k) ==
 
 \* information strings (code points): plain, delimiters, escapes, line ends, NUL, Latin-1, PDFDoc-only, CJK, astral, BOM-like, long
 Strs == << <<72, 105>>, <<>>, <<40, 41, 60, 62, 91, 93, 123, 125, 47, 37>>, <<92, 40>>, <<41>>, <<65, 13, 66, 10, 67, 13, 10>>, <<65, 0, 66>>,
-           <<233, 255>>, <<8226, 321>>, <<20013, 25991>>, <<128512>>, <<254, 255>>, <<239, 187, 191>>, [i \in 1..300 |-> 65 + (i % 26)], <<35, 32, 35>> >>
+           <<233, 255>>, <<8226, 321>>, <<20013, 25991>>, <<128512>>, <<254, 255>>, <<239, 187, 191>>, [i \in 1..300 |-> 65 + (i % 26)], <<35, 32, 35>>,
+           <<296, 297, 348, 8232, 269>> >>        \* the last: UTF-16BE code units that contain the bytes ( ) \ and CR
 InfoOf(k) == [title |-> Strs[(k % Len(Strs)) + 1], author |-> Strs[((k \div 2) % Len(Strs)) + 1], subject |-> Strs[((k + 5) % Len(Strs)) + 1],
               keywords |-> Strs[((k + 9) % Len(Strs)) + 1], creator |-> Strs[((k \div 3) % Len(Strs)) + 1], producer |-> Strs[((k + 2) % Len(Strs)) + 1]]
 
@@ -36,8 +37,12 @@ NDocs == Len(Cfgs) * 3 * Stride
 
 \* (the variable `done` is MCContent's)
 DInit == done = FALSE
+\* one document with more than a hundred compressible objects (a second object stream, a second hundred of entries)
+BigDoc == [pages |-> [x \in 1..104 |-> [w |-> 200, h |-> 100, rot |-> (x % 4) * 90, kind |-> "g", prog |-> <<C0("save_state"), C0("restore_state")>>]],
+           info |-> InfoOf(16), cfg |-> [xref |-> TRUE, objstm |-> TRUE, compress |-> TRUE, version |-> "1.5"]]
 DNext == /\ ~done
          /\ \A k \in 1..NDocs : PrintT(<<"REPLAY", ToJson(DocOf(k))>>)
+         /\ PrintT(<<"REPLAY", ToJson(BigDoc)>>)
          /\ PrintT(<<"COUNT", ToJson([docs |-> NDocs, cfgs |-> Len(Cfgs)])>>)
          /\ done' = TRUE
 DSpec == DInit /\ [][DNext]_done
